@@ -6,7 +6,8 @@ package main
 // (transport error), bad JSON / missing key for a jsonpath extractor, failed assertion, non-2xx status.
 //
 // request def  name:method:pre:uri:body:post[:xh]  (lists '|'-separated)
-//   pre   v=n (source.users[next].id)  v=i<k> (source.users[<k>].name)  v=l ([last].name)  v=r ([rand].name)
+//   pre   v=n (source.users[next].id)  v=m (source.vars.users[next].id: a SECOND data source, file/json, L2 rows, whose
+//         list has the same name — its counter is keyed by the whole path)  v=i<k> (source.users[<k>].name)  v=l ([last].name)  v=r ([rand].name)
 //         v=qX.post.y / v=qX.pre.y (request.X.postprocessor.y / request.X.preprocessor.y)
 //   uri / body parts   c<lit> | pX.y ({{.request.X.postprocessor.y}}) | eX.y (…preprocessor…) | s<k> ({{(index .source.users k).name}})
 //   xh    <header>=<part>   an extra request header (e.g. one literally named url or body) rendered from a part
@@ -77,6 +78,8 @@ func prePath(code string) string {
 	switch {
 	case code == "n":
 		return "source.users[next].id"
+	case code == "m":
+		return "source.vars.users[next].id"
 	case code == "l":
 		return "source.users[last].name"
 	case code == "r":
@@ -118,9 +121,12 @@ func tmplPart(p string) string {
 	return p
 }
 
-func gunYAML(kv map[string]string, csvFile string) string {
+func gunYAML(kv map[string]string, csvFile, jsonFile string) string {
 	var b strings.Builder
 	fmt.Fprintf(&b, "\"variable_sources\":\n  - \"type\": \"file/csv\"\n    \"name\": \"users\"\n    \"file\": %s\n    \"fields\": [\"id\", \"name\"]\n", yq(csvFile))
+	if jsonFile != "" {
+		fmt.Fprintf(&b, "  - \"type\": \"file/json\"\n    \"name\": \"vars\"\n    \"file\": %s\n", yq(jsonFile))
+	}
 	b.WriteString("\"requests\":\n")
 	for _, r := range parseReqs(kv["rq"]) {
 		fmt.Fprintf(&b, "  - \"name\": %s\n    \"method\": %s\n", yq(r.name), yq(r.method))
@@ -139,7 +145,7 @@ func gunYAML(kv map[string]string, csvFile string) string {
 		if len(r.pre) > 0 {
 			for _, p := range r.pre {
 				pfx := "X-V-"
-				if p[1] == "n" {
+				if p[1] == "n" || p[1] == "m" {
 					pfx = "X-N-"
 				}
 				fmt.Fprintf(&b, "      %s: %s\n", yq(pfx+p[0]), yq("{{.request."+r.name+".preprocessor."+p[0]+"}}"))
@@ -194,6 +200,7 @@ type instance struct {
 	ord    int
 	oracle []string
 	draws  []int
+	draws2 []int // rows of the second source (values w<k>)
 	reqs   map[string]reqDef
 	rows   int
 }
@@ -241,6 +248,11 @@ func (in *instance) ServeHTTP(w http.ResponseWriter, r *http.Request) {
 			if strings.HasPrefix(v[0], "u") {
 				if d, err := strconv.Atoi(v[0][1:]); err == nil {
 					in.draws = append(in.draws, d)
+				}
+			}
+			if strings.HasPrefix(v[0], "w") {
+				if d, err := strconv.Atoi(v[0][1:]); err == nil {
+					in.draws2 = append(in.draws2, d)
 				}
 			}
 		case strings.HasPrefix(k, "X-V-"):
@@ -339,8 +351,24 @@ func runGun(kv map[string]string) (obs string) {
 		fmt.Fprintf(&csv, "u%d,n%d\n", i, i)
 	}
 	writeFile(csvFile, csv.String())
-	writeFile(file, gunYAML(kv, csvFile))
-	defer func() { _ = memFs.Remove(file); _ = memFs.Remove(csvFile) }()
+	jsonFile := ""
+	if l2, ok := kv["L2"]; ok {
+		rows2, _ := strconv.Atoi(l2)
+		jsonFile = fmt.Sprintf("c15-vars-%d.json", seq)
+		var js []string
+		for i := 0; i < rows2; i++ {
+			js = append(js, fmt.Sprintf(`{"id":"w%d","name":"m%d"}`, i, i))
+		}
+		writeFile(jsonFile, `{"users":[`+strings.Join(js, ",")+`]}`)
+	}
+	writeFile(file, gunYAML(kv, csvFile, jsonFile))
+	defer func() {
+		_ = memFs.Remove(file)
+		_ = memFs.Remove(csvFile)
+		if jsonFile != "" {
+			_ = memFs.Remove(jsonFile)
+		}
+	}()
 	var result string
 	func() {
 		defer func() {
@@ -438,13 +466,14 @@ func runGun(kv map[string]string) (obs string) {
 		}
 		wg.Wait()
 		var parts []string
-		var draws []int
+		var draws, draws2 []int
 		for i, in := range insts {
 			if panics[i] != "" {
 				in.events = append(in.events, "X~"+panics[i])
 			}
 			parts = append(parts, fmt.Sprintf("i%d=%s", i, strings.Join(in.events, "|")))
 			draws = append(draws, in.draws...)
+			draws2 = append(draws2, in.draws2...)
 		}
 		sort.Ints(draws)
 		var ds []string
@@ -452,6 +481,14 @@ func runGun(kv map[string]string) (obs string) {
 			ds = append(ds, strconv.Itoa(d))
 		}
 		result = "ok " + strings.Join(parts, " ") + " rows=" + strings.Join(ds, ",")
+		if jsonFile != "" {
+			sort.Ints(draws2)
+			var ds2 []string
+			for _, d := range draws2 {
+				ds2 = append(ds2, strconv.Itoa(d))
+			}
+			result += " rows2=" + strings.Join(ds2, ",")
+		}
 	}()
 	return result
 }
